@@ -25,3 +25,6 @@ cdef class MulticastOutgoingQueue:
     cdef void _remove_answers_from_queue(self, cython.dict answers)
 
     cpdef void async_ready(self)
+
+    @cython.locals(sending=cython.dict)
+    cpdef void async_remove_sent(self, cython.dict answers)
